@@ -70,3 +70,9 @@ pub assume_specification<T: ?Sized> [std::sync::Mutex::<T>::try_lock] (m: &std::
 #[verifier::external_body] pub broadcast proof fn axiom_fmt_try_lock_error<T>() ensures #[trigger] vstd::std_specs::fmt::fmt_req_all::<std::sync::TryLockError<T>>() {}
 #[verifier::external_body] pub broadcast proof fn axiom_fmt_poison_error<T>() ensures #[trigger] vstd::std_specs::fmt::fmt_req_all::<std::sync::PoisonError<T>>() {}
 pub broadcast group group_fmt_lock_errors { axiom_fmt_try_lock_error, axiom_fmt_poison_error }
+// u16::to_be / u32::from_be: only named (uninterpreted), like their counterparts above: a key or field that is converted where
+// the statement's layout does not convert it cannot be shown equal to the layout's value
+pub uninterp spec fn be16(x: u16) -> u16;
+pub assume_specification [u16::to_be] (x: u16) -> (r: u16) ensures r == be16(x);
+pub uninterp spec fn from_be32(x: u32) -> u32;
+pub assume_specification [u32::from_be] (x: u32) -> (r: u32) ensures r == from_be32(x);
